@@ -97,10 +97,44 @@ def helper_discipline(prog, ctx):
     for e in all_exprs(h):
         if e.get('k') == 'Bin' and strip(e['lhs']).get('k') == 'Ref' and strip(e['lhs']).get('rk') == 'param' and strip(e['lhs'])['idx'] == 2:
             mode = 'assign' if e['op'] == '=' else ('flip' if e['op'] == '*=' else e['op'])
-    swaps = [c for c in calls(h) if (c.get('callee') or {}).get('q') == 'std::swap']
-    ok = mode in ('assign', 'flip') and len(swaps) == 1
-    ctx.decide('C13.a', 'Check_Integration_Limits:summary', h, ok, 'exchanges the limits when a>b and %ss the sign' % mode,
-               'ordering helper not recognised (sign write: %s, swaps: %d)' % (mode, len(swaps)))
+    # semantic summary of the helper: (a, b, sign) -> (a, b, sign) on a <= b and (b, a, -1 | -sign) on a > b
+    ok, why = False, 'helper paths not understood'
+    try:
+        sxh = Symx(prog, h)
+        outs = [o for o in sxh.run() if o.kind in ('return', 'end')]
+        pa, pb, ps = h.params[0], h.params[1], h.params[2]
+        a0, b0, s0 = (sxh.symbol(p_['name'], p_['ty']) for p_ in (pa, pb, ps))
+        rows = []
+        for o in outs:
+            env = o.state.env
+            rows.append((o.cond, env.get(pa['id'], a0), env.get(pb['id'], b0), env.get(ps['id'], s0)))
+        probs = []
+        seen_sw = seen_pl = False
+        for cnd, a1, b1, s1 in rows:
+            ats = list(cnd.args) if isinstance(cnd, sp.And) else [cnd]
+            rev = any(at in (sp.Gt(a0, b0), sp.Lt(b0, a0)) for at in ats)
+            if rev:
+                seen_sw = True
+                if not (a1 == b0 and b1 == a0):
+                    probs.append('under a>b the limits leave the helper as (%s,%s)' % (a1, b1))
+                if not (s1 == -1 or s1 == -s0):
+                    probs.append('under a>b the sign leaves the helper as %s' % s1)
+            else:
+                seen_pl = True
+                if not (a1 == a0 and b1 == b0):
+                    probs.append('with ordered limits the helper rewrites them to (%s,%s)' % (a1, b1))
+                if mode == 'assign' and s1 not in (1, s0) or mode == 'flip' and s1 != s0:
+                    probs.append('with ordered limits the sign leaves the helper as %s' % s1)
+        if not (seen_sw and seen_pl):
+            probs.append('no path distinguishes a>b from a<=b')
+        ok, why = not probs, '; '.join(probs)
+    except Undecided as ex:
+        ctx.undecided('C13.a', 'Check_Integration_Limits:summary', h, 'ordering helper outside the understood fragment: %s' % ex)
+        ok = None
+    if ok is not None:
+        ok = ok and mode in ('assign', 'flip')
+        ctx.decide('C13.a', 'Check_Integration_Limits:summary', h, ok, 'exchanges the limits when a>b and %ss the sign' % mode,
+                   'ordering helper: %s (sign write: %s)' % (why, mode))
     for fn in prog.repo_functions():
         cs = [c for c in calls(fn, into_lambdas=False) if (c.get('callee') or {}).get('q') == HELPER]
         if not cs:
